@@ -39,7 +39,7 @@ STUBS = ["assemblies.np / blocks.np / composites.np / component.np -> object-arr
 #       fuel x1.40625, clad x1.96875, everything else x1 -> block 1 spans 35.4375..35.4375: a fuel block of height 0.
 # While the flag is set, the dummy block and blocks above a block with a different target kind are only required to
 # have height >= 0 (blocks of an aligned target column are still required to be strictly positive).
-KNOWN_DEFECT_zero_height_block = True
+KNOWN_DEFECT_zero_height_block = False  # repaired in /repo (fix: 6efafad)
 
 # "The mass of each block's target component is always conserved" holds only while the target component sits on the
 # bottom of its block, i.e. while the component linked below it is the target of the block below (one aligned target
@@ -49,7 +49,7 @@ KNOWN_DEFECT_zero_height_block = True
 # floats): heights 10, 10, dummy 10; block 0 fuel x1.0, clad x1.5; block 1 everything x1.0 -> block 1 spans 15..20
 # (height 5 instead of 10) and the mass of its fuel (target, growth 1.0) is halved.
 # While the flag is set, target-mass conservation is required only when the target is aligned with its block bottom.
-KNOWN_DEFECT_target_mass_needs_aligned_column = True
+KNOWN_DEFECT_target_mass_needs_aligned_column = False  # recorded in known_findings.jsonl
 
 SOLIDS = ("fuel", "clad", "duct")
 NUC = {"fuel": "U235", "clad": "FE", "duct": "FE"}
@@ -205,8 +205,9 @@ def prescribed_expansion_keeps_height_contiguity_and_target_mass(ctx, n, targets
         room = before["total"] - sum(g[f] * h for f, h in zip(fuels, hs))
         if ctx.canary:
             room = room + ITE(AND(hs[0] > 399, g[fuels[0]] > 1.99), 1.0, 0.0)
+        # (blocks must keep a positive height: using up the whole room is refused as well)
         ctx.check("ArithmeticError exactly when the grown target column no longer fits below the top",
-                  IFF(raised, room < 0))
+                  IFF(raised, room <= 0))
     if raised:
         return
     check_geometry(ctx, a, changer, before, "after", n, targets)
